@@ -90,11 +90,13 @@ func ApplyInclude(ctx context.Context, workingDir string, environment types.Mapp
 						relworkingdir = r.ProjectDirectory
 
 					}
-					for _, f := range included {
-						if f == path {
-							included = append(included, path)
-							return fmt.Errorf("include cycle detected:\n%s\n include %s", included[0], strings.Join(included[1:], "\n include "))
-						}
+				}
+				// every path of the entry is loaded (the first one as the main file, the others as
+				// overrides), so each of them can close an include cycle
+				for _, f := range included {
+					if f == path {
+						included = append(included, path)
+						return fmt.Errorf("include cycle detected:\n%s\n include %s", included[0], strings.Join(included[1:], "\n include "))
 					}
 				}
 			}
